@@ -158,12 +158,39 @@ def search_str_format():
     return None
 
 
+def search_percent_forms():
+    """the % operator through the checker, as a binary expression and as the augmented assignment `s %= args` on a literal template"""
+    from replay.checkcode import check_code
+    cases = [("'%d items'", "'many'"), ("'%d items'", "3"), ("'%s and %s'", "('a',)"), ("'%s and %s'", "('a', 'b')"), ("'%(k)s'", "{'k': 1}"), ("'%(k)s'", "{'j': 1}"), ("b'%d'", "b'x'"), ("b'%d'", "1"),
+             ("'%*d'", "(1, 2)"), ("'%*d'", "('w', 2)")]
+    lines, plan = [], []
+    for i, (t, a) in enumerate(cases):
+        try:
+            eval(f"{t} % {a}")
+            ok = True
+        except (TypeError, ValueError, KeyError):
+            ok = False
+        lines += [f"def b{i}() -> object:", f"    return {t} % {a}"]
+        plan.append((len(lines), f"{t} % {a}", ok))
+        lines += [f"def a{i}() -> object:", f"    s = {t}", f"    s %= {a}", "    return s"]
+        plan.append((len(lines) - 1, f"s = {t}; s %= {a}", ok))
+    res = check_code("\n".join(lines) + "\n")
+    bad = {}
+    for fl in res:
+        if fl["code"].name in ("bad_format_string", "incompatible_call", "incompatible_argument", "unsupported_operation"):
+            bad.setdefault(fl["lineno"], []).append(fl["description"].split("\n")[0])
+    for ln, what, ok in plan:
+        if ok == (ln in bad):
+            return f"{what}: CPython {'formats' if ok else 'raises'}, pyanalyze {'reports ' + str(bad[ln]) if ln in bad else 'reports nothing'}"
+    return None
+
+
 def r_bounded(rec):
     devs = [d for d in deviations() if classify(d) != "D14" and (d[0], d[1]) != (False, "b")]
     if devs:
         d = devs[0]
         return True, f"pattern {'b' if d[0] else ''}'%{d[1]}' % ({d[2]!r},): CPython {'formats' if d[3] else 'raises'}, pyanalyze errors={d[4]}"
-    for fn in (search_counts, search_str_format):
+    for fn in (search_counts, search_str_format, search_percent_forms):
         msg = fn()
         if msg:
             return True, msg
